@@ -186,7 +186,38 @@ def _witness_by_evaluation(c, neg, seed, tries=40):
     return None
 
 
-def _final_check(c, neg, timeout_ms):
+def _has_uf(e, _cache={}):
+    """does the z3 expression contain an application of an uninterpreted function (arity >= 1)?"""
+    seen, stack = set(), [e]
+    while stack:
+        x = stack.pop()
+        if x.get_id() in seen:
+            continue
+        seen.add(x.get_id())
+        if z3.is_app(x):
+            d = x.decl()
+            if d.kind() == z3.Z3_OP_UNINTERPRETED and x.num_args() > 0:
+                return True
+            stack.extend(x.children())
+    return False
+
+
+def _consts(e):
+    """names of the uninterpreted constants occurring in a z3 expression"""
+    out, seen, stack = set(), set(), [e]
+    while stack:
+        x = stack.pop()
+        if x.get_id() in seen:
+            continue
+        seen.add(x.get_id())
+        if z3.is_app(x):
+            if x.num_args() == 0 and x.decl().kind() == z3.Z3_OP_UNINTERPRETED:
+                out.add(x.decl().name())
+            stack.extend(x.children())
+    return out
+
+
+def _final_check(c, neg, timeout_ms, quick_only=False):
     """Decide pc ∧ neg.  A fresh (non-incremental) solver first — it lets z3 preprocess and pick nlsat for
     polynomial arithmetic; then the incremental solver, then an explicit nlsat pipeline.  unknown is never success."""
     def fresh(solver, tag, tmo):
@@ -202,9 +233,45 @@ def _final_check(c, neg, timeout_ms):
         if r == z3.unsat:
             return "unsat", None, tag
         return None
-    res = fresh(z3.Solver(), "z3-fresh", max(timeout_ms // 3, 2000))
+    # Weaker hypotheses first: if the obligation contains no uninterpreted function, try to prove it from the path
+    # conjuncts that contain none either (dropping hypotheses is sound for a proof; a `sat` here is NOT a verdict).
+    if not _has_uf(neg):
+        slim = [p for p in c.pc if not _has_uf(p)]
+        # ... and only those connected to the obligation through shared symbols (relevance closure)
+        want = _consts(neg)
+        pool = [(p, _consts(p)) for p in slim]
+        changed = True
+        keep = []
+        while changed:
+            changed = False
+            rest = []
+            for p, cs in pool:
+                if cs & want:
+                    keep.append(p)
+                    want |= cs
+                    changed = True
+                else:
+                    rest.append((p, cs))
+            pool = rest
+        slim = keep
+        for hyps, tag, tmo in (([], "z3-fresh-no-hypotheses", 3000), (slim, "z3-fresh-without-UF-hypotheses", max(timeout_ms // 3, 2000))):
+            if len(hyps) >= len(c.pc):
+                continue
+            s0 = z3.Solver()
+            s0.set("timeout", tmo)
+            s0.add(*hyps)
+            s0.add(neg)
+            t0 = time.time()
+            r0 = s0.check()
+            c.solver_s += time.time() - t0
+            c.queries += 1
+            if r0 == z3.unsat:
+                return "unsat", None, tag
+    res = fresh(z3.Solver(), "z3-fresh", max(timeout_ms // 3, 2000) if not quick_only else timeout_ms)
     if res:
         return res
+    if quick_only:
+        return "unknown", None, "z3"
     r, m = c.check(neg)
     if r != "unknown":
         return r, m, "z3-incremental"
@@ -357,8 +424,9 @@ def _discharge(case, c, ob: Ob, out, opts):
         if wit is not None:
             verdict, how = "sat", "witness-by-evaluation"
         else:
-            verdict, _m, how = _final_check(c, neg, opts["timeout_ms"])
-            if verdict == "unknown":
+            # sensitivity twins only need to be refuted on SOME path: a short budget per path is enough
+            verdict, _m, how = _final_check(c, neg, opts["timeout_ms"] if ob.expect != "sat" else min(opts["timeout_ms"], 4000), quick_only=(ob.expect == "sat"))
+            if verdict == "unknown" and ob.expect != "sat":
                 wit = _witness_by_evaluation(c, neg, opts.get("seed", 0), tries=200)
                 if wit is not None:
                     verdict, how = "sat", "witness-by-evaluation"
